@@ -14,7 +14,7 @@ THEOREMS = ["C17_in_box", "C17_feasible", "C17_nodup", "C17_subset", "C17_output
             # Props/C17grid.v: the model's rounding key IS the source's (gen/Src_grid.v regenerated from constraints_check.py)
             "C17_rounding_key_is_source", "C17_same_key_iff_source_rows_equal", "C17_same_key_within_half_tol",
             # Props/C17src.v: Model/Filter.v's filter_candidates IS the program regenerated from constraints_check.py (gen/Src_filter.v)
-            "C17_filter_is_source", "C17_order_of_steps_is_source"]
+            "C17_filter_is_source", "C17_order_of_steps_is_source", "C17_source_properties", "C17_call_sites_are_source"]
 LEVEL = "proof"
 RULE = ("contraints_check vs Model/Filter.v, output rows compared exactly INCLUDING order. lattice stream: designed "
         "enumeration over {-2..2}^D, D<=2 (D=1: all 156 candidate lists of length<=3 x 26 intervals incl. half-infinite "
